@@ -88,13 +88,16 @@ impl StdfsEntry {
     /// * Filesystem properties are cached during load
     pub(crate) fn from<T: AsRef<Path>>(path: T) -> RvResult<Self> {
         let path = Stdfs::abs(path)?;
-        if !Stdfs::exists(&path) {
-            return Err(PathError::does_not_exist(&path).into());
-        }
         let mut link = false;
         let mut alt = PathBuf::new();
         let mut rel = PathBuf::new();
-        let mut meta = fs::symlink_metadata(&path)?;
+
+        // A link exists even if its target doesn't
+        let meta = match fs::symlink_metadata(&path) {
+            Ok(meta) => meta,
+            Err(_) => return Err(PathError::does_not_exist(&path).into()),
+        };
+        let (mut dir, mut file) = (meta.is_dir(), meta.is_file());
 
         // Load link information for links
         if meta.file_type().is_symlink() {
@@ -107,18 +110,21 @@ impl StdfsEntry {
             // Get the target path relative to the link path if possible
             rel = alt.relative(path.dir()?)?;
 
-            // Switch to the link's source metadata
-            meta = fs::metadata(&path)?;
+            // The kind is that of the link's target, a dangling link is neither a file nor a directory
+            (dir, file) = match fs::metadata(&path) {
+                Ok(target) => (target.is_dir(), target.is_file()),
+                Err(_) => (false, false),
+            };
         }
 
         Ok(StdfsEntry {
             path,
             alt,
             rel,
-            dir: meta.is_dir(),
-            file: meta.is_file(),
+            dir,
+            file,
             link,
-            mode: meta.permissions().mode(),
+            mode: meta.permissions().mode(), // the entry's own mode, never the link target's
             follow: false,
             cached: true,
         })
